@@ -71,7 +71,7 @@ PROPS = {
         "title": "Server-sent events: the encoder under contract and read back by an EventSource client (deductive); delivery order, exactly-once and stream end over a live server (bounded)",
         "design_ref": "DESIGN.md section 3 (C11)",
         "technique": "Verus contracts on the real Event::write_to, Event::custom and EventSender::send / disconnect / is_connected (src/event.rs; write! through rule R12 on a byte-slice sink, the line splitter through a rule-S1 stand-in) against a block specification, plus theorems over that specification: an EventSource client written from the WHATWG text dispatches exactly the event sent; the queue, the threads and the response writer only by a bounded stand-in over a live server",
-        "level_text": "Deductive proof for every event: write_to hands the body writer exactly the block enc(e) -- an `event:` field iff the event has a type, one `data:` field per line of the data, lines split at CRLF, LF and CR -- reports its UTF-8 length and never reports 0 bytes (the body writer reads 0 as the end of the stream, so no event content can end it); Event::custom refuses exactly the types containing CR or LF. Theorems over enc: a client with empty buffers that receives enc(e), a blank line and anything else dispatches exactly one event with e's type (`message` when none) and e's data with line ends as LF (exactly the data when it has no CR), leaves the last-event-id and the reconnection time alone and continues with empty buffers (thm_event_reads_back); a sequence of blocks is dispatched exactly once each in order (thm_stream_in_order). EventSender: send never leaves a sender connected whose event the queue did not take, a disconnected sender stays disconnected. EventReceiver::poll_read with read_waiting / read_event: while part of an event is waiting, the queue is left alone and the next piece is delivered (as much as fits, in order, never 0 bytes, the rest keeps waiting); otherwise a 0-byte read (the end of the stream) is reported when and only when the queue reports that every sender is gone, Pending iff the queue is pending, and a received event is handed on as its whole block if the window holds it, else as its first bytes with exactly the rest left waiting -- no event is refused for its size (repaired defect f72b510).",
+        "level_text": "Deductive proof for every event: write_to hands the body writer exactly the block enc(e) -- an `event:` field iff the event has a type, one `data:` field per line of the data, lines split at CRLF, LF and CR -- reports its UTF-8 length and never reports 0 bytes (the body writer reads 0 as the end of the stream, so no event content can end it); Event::custom refuses exactly the types containing CR or LF. Theorems over enc: a client with empty buffers that receives enc(e), a blank line and anything else dispatches exactly one event with e's type (`message` when none) and e's data with line ends as LF (exactly the data when it has no CR), leaves the last-event-id and the reconnection time alone and continues with empty buffers (thm_event_reads_back); a sequence of blocks is dispatched exactly once each in order (thm_stream_in_order). EventSender: send never leaves a sender connected whose event the queue did not take, a disconnected sender stays disconnected. EventReceiver::poll_read with read_waiting / read_event: while part of an event is waiting, the queue is left alone and the next piece is delivered (as much as fits, in order, never 0 bytes, the rest keeps waiting); otherwise a 0-byte read (the end of the stream) is reported when and only when the queue reports that every sender is gone, Pending iff the queue is pending, and a received event is handed on as its whole block if the window holds it, else as its first bytes with exactly the rest left waiting -- no event is refused for its size (repaired defect f72b510); the blocking form (impl Read for EventReceiver) against the same contract without the Pending case.",
         "level_note": "Partial claim with one open known finding: the block is not ended by a blank line (tests/event.rs pins the bytes `data: msg1\\n`), so a conforming client never dispatches; the theorems supply the blank line. Not within the technique: the bounded queue between sender threads and the response writer, exactly-once delivery and the terminating chunk under real concurrency -- bounded only (stand-in c11: live server, one event per chunk, 30-40 events in order, contents that must not end the stream, two senders, overrun of the queue of 50). Assumed: the rule-S1 stand-ins (byte slice as io::Write with UTF-8 lengths additive; the line splitter = lines_of, compared with the real expression by c11 on all strings over a 6-letter alphabet up to length 5), try_send does not block.",
         "verus": ["sse"],
         "verus_thorough": [],
@@ -89,7 +89,6 @@ PROPS = {
         ],
         "not_covered": [
             "that the byte form of push_to and the character form of write_to denote the same text (utf8 over concatenation): compared byte for byte by c11",
-            "the blocking Read::read of EventReceiver (same three arms as poll_read; not used by the server)",
             "ordering / exactly-once / queue overrun / sender outliving the client under real concurrency: bounded c11 only",
             "the closing blank line (open known finding)",
         ],
@@ -130,19 +129,20 @@ PROPS = {
         "design_ref": "DESIGN.md section 4 (C20)",
         "technique": "complete (loop-free, full-domain) Kani harnesses on the real crate: one generated per status-named constructor, "
                      "one per error-mapping table; Verus for 'every 5xx response that is sent is marked connection: close': write_response computes "
-                     "close = 500..=599 (conn unit), write_http_response emits the field iff close (respwrite unit), theorem thm_5xx_marked_close",
+                     "close = 500..=599 (conn unit), write_http_response emits the field iff close (respwrite unit), theorem thm_5xx_marked_close; Verus contract on the real From<HttpError> for Response (unit errresp): status by error class whatever the payload, fixed body for server-caused errors",
         "level_text": "Bit-precise proof by CBMC over complete harnesses: every `fn NAME_DDD` constructor found in src/response.rs yields kind "
                       "Normal and code DDD (harnesses generated from the names in the working tree, so the set is exhaustive by construction); "
                       "every HttpError variant maps to its documented status with body exactly the kind name / the fixed 413 text / the fixed "
                       "500 text for arbitrary payload strings; is_1xx..is_5xx agree with the numeric class for all 65536 codes. Deductive "
                       "(Verus, unbounded): a 5xx response sent through HttpConn::write_response goes out with the field `connection: close` "
-                      "right after the status line / content-type, and the write side is shut down after it.",
+                      "right after the status line / content-type, and the write side is shut down after it. From<HttpError> for Response (Verus, every error value with every payload): the status is that of the error's class (err_code, written from the property), a server-caused error gets the body StaticStr(\"Internal server error\") and BodyTooLong the fixed 413 text -- functions of a literal alone, so no payload text (paths, OS messages) can reach the client.",
         "level_note": "Kani/CBMC trusted; payload strings are 0..2 arbitrary chars (the mapping never inspects them).",
         "verus": ["conn", "respwrite", "errresp"],
         "kani": ["c20"],
         "witness": "c20",
         "assumptions": [
             "the harnesses run on a scratch copy of the working tree with the harness module appended under cfg(kani)",
+            "unit errresp, rule S1: the anonymous `impl Into<ResponseBody>` parameter of Response::text / with_body is named (`<B: Into<ResponseBody>>`), so that the conversion is carried as call_ensures(<B as Into<ResponseBody>>::into, ..) and resolved through vstd's blanket Into specification to the proved From<&'static str> for ResponseBody (== StaticStr(s)); two `&str` with the same characters are the same value",
             "payload strings of the three payload-carrying variants range over 0..=2 arbitrary Unicode scalar values; the mapping code never reads them",
         ],
         "not_covered": [
